@@ -375,7 +375,25 @@ def r16_12(ctx):
            'take it and call task_done() while the count is still 0')
 
 
+
+def r16_13(ctx):
+    ctx.rule('R16.13', 'the feeder goes to sleep only after it found the buffer empty while holding the buffer lock: every '
+                       'wait on the not-empty condition is under `not buffer`, tested inside the same lock section (a '
+                       'put() between an unlocked look and the wait is a wake-up lost: the item stays in the buffer)', floor=1)
+    m = ctx.model
+    fi = m.func('queues:Queue._feed')
+    waits = [(n, c) for (n, c) in q.calls(fi, lambda t: t in ('notempty.wait', 'nwait'))]
+    q.need(waits, 'Queue._feed never waits')
+    B = fi.positional_params()[0]
+    for (n, c) in waits:
+        ok = q.has_guard(fi, n, B, False) or q.has_guard(fi, n, 'not ' + B, True)
+        ctx.ob('R16.13', '_feed:sleeps-only-when-the-buffer-is-empty-under-the-lock', ok, fi, c,
+               'notempty.wait() under `if not buffer`' if ok else
+               'the feeder waits without having tested the buffer under the lock')
+
+
 def run(ctx):
+    r16_13(ctx)
     r16_11(ctx)
     r16_12(ctx)
     # a waiter is counted as sleeping while it still holds the lock (borrowed from C17): join() relies on it
@@ -407,6 +425,7 @@ def run(ctx):
 
 _Q = 'billiard/queues.py'
 MUTANTS = [
+    ('feeder-waits-without-looking', _Q, "                    if not buffer:\n                        nwait()\n", "                    nwait()\n", 'R16.13'),
     ('put-writes-the-pipe-itself', _Q, "            self._buffer.append(obj)\n            self._notempty.notify()\n\n    def get(", "            if not self._buffer:\n                self._send_bytes(ForkingPickler.dumps(obj))\n                return\n            self._buffer.append(obj)\n            self._notempty.notify()\n\n    def get(", 'R16.11'),
     ('joinable-put-counts-after-publishing', _Q, "                self._buffer.append(obj)\n                self._unfinished_tasks.release()\n                self._notempty.notify()\n", "                self._buffer.append(obj)\n                self._notempty.notify()\n        with self._cond:\n            self._unfinished_tasks.release()\n", 'R16.12'),
     ('join-tests-before-taking-the-condition', _Q, "        with self._cond:\n            if not self._unfinished_tasks._semlock._is_zero():\n                self._cond.wait()\n",
